@@ -19,6 +19,9 @@ O_HASH = 'OperationGroup.hash::ensures.b58_o_of_blake2b256(forged||raw_signature
 O_PAYLOAD = 'OperationGroup.binary_payload::ensures.forged||raw_signature'
 O_UNSIGNED = 'OperationGroup.binary_payload::raises.ValueError_when_unsigned'
 O_REC = 'OperationGroup.hash::ensures.recorded_mainnet_hashes'
+O_RESIGN = 'OperationGroup.sign::ensures.already_signed_group_is_signed_again_over_its_current_bytes'
+O_REUSE = 'OperationGroup.sign::ensures.same_object_edited_in_place_is_signed_and_hashed_over_its_current_bytes'
+O_SIGKIND = 'OperationGroup.hash::ensures.same_hash_and_payload_for_the_curve_specific_signature_notation'
 
 # Tezos: consensus operations are signed under 0x02 || chain_id (property statement); everything else 0x03.
 CONSENSUS_KINDS = {'endorsement', 'endorsement_with_slot', 'preendorsement', 'attestation', 'preattestation'}
@@ -31,6 +34,8 @@ CHAIN_IDS = ['NetXdQprcVkpaWU', 'NetXgbcrNtXD2yA', B58.encode('Net', bytes(4)), 
 OTHER = 'tz1RDJ7MMvN9J4tD5A6EXVRtX3WHjuGA3qbu'
 KT = 'KT1Uau1xTG3dPxSuJKEM1TcRjq4mjeU3kJ64'
 DUMMY_SIG = B58.encode('sig', bytes(64))
+STALE_HASH = 'oo6JPEAy8VuMRGaFuMmLNFFGdJgiaKfnmT1CpHJfKP3Ye5ZahiP'
+PINS = [None, 'other', 'same']
 
 
 def _res(oid, ok, info='', wclass=''):
@@ -92,7 +97,14 @@ class _NoRpc:
         raise RuntimeError(f'harness: unexpected RPC access .{item} in sign/hash/binary_payload')
 
 
-def build_group(curve, secret, kinds, variant, chain_id, branch):
+def pinned_chain(pin, chain_id):
+    """chain id pinned on the CLIENT context (ExecutionContext(chain_id=...)): None, another chain than the group's, or the same"""
+    if pin == 'other':
+        return next(c for c in CHAIN_IDS if c != chain_id)
+    return chain_id if pin == 'same' else None
+
+
+def build_group(curve, secret, kinds, variant, chain_id, branch, pin=None):
     from pytezos.context.impl import ExecutionContext
     from pytezos.crypto.key import Key
     from pytezos.operation.group import OperationGroup
@@ -100,7 +112,7 @@ def build_group(curve, secret, kinds, variant, chain_id, branch):
     pk = SIG.public_key(curve, secret)
     src = B58.pkh(curve, pk)
     contents = [content(k, variant + i, src, B58.encode(curve + 'pk', pk)) for i, k in enumerate(kinds)]
-    ctx = ExecutionContext(key=key, shell=_NoRpc())
+    ctx = ExecutionContext(key=key, shell=_NoRpc(), chain_id=pinned_chain(pin, chain_id))
     return OperationGroup(context=ctx, contents=contents, branch=branch, chain_id=chain_id,
                           protocol='PtMumbai2TmsJHNGRkD8v8YDbtao7BLUC3wjASn1inAKLFCjaH1'), pk
 
@@ -115,12 +127,32 @@ def watermark(kinds, chain_id):
     return b'\x03'
 
 
+def verifies(curve, secret, pk, msg, sig, full=True):
+    """-> (ok, kind, raw): `sig` is a signature notation of the curve's scheme that verifies under the key over msg.
+    tz1-tz3: independent verifier; tz4: the deterministic reference signature (and, when `full`, the real Key.verify)."""
+    kind, raw = B58.decode(sig)
+    good_kind = kind in ('sig', curve + 'sig') and len(raw) == B58.SIG_LEN[curve]
+    ind = SIG.verify(curve, pk, msg, raw) if good_kind else False
+    if ind is None:   # BLS: deterministic reference + the real verify
+        from pytezos.crypto.key import Key
+        ref = SIG.bls_aug_sign_reference(secret, msg)
+        v = True
+        if full:
+            try:
+                v = Key.from_encoded_key(B58.encode('BLpk', pk)).verify(sig, msg)
+            except Exception as e:  # noqa
+                v = CC.exc_text(e)
+        ind = (ref == raw) and v is True
+    return ind is True, kind, raw
+
+
 def eval_group(case):
     curve, secret = case['curve'], bytes.fromhex(case['secret'])
     kinds, variant, chain_id, branch = case['kinds'], case['variant'], case['chain_id'], case['branch']
-    opg, pk = build_group(curve, secret, kinds, variant, chain_id, branch)
+    pin = case.get('pin')
+    opg, pk = build_group(curve, secret, kinds, variant, chain_id, branch, pin)
     tag = f'source={TZ[curve]}'
-    shape = f'{"+".join(kinds)} ({TZ[curve]} source, chain {chain_id})'
+    shape = f'{"+".join(kinds)} ({TZ[curve]} source, chain {chain_id}' + (f', client context pinned to {pinned_chain(pin, chain_id)})' if pin else ')')
     out = []
     try:
         forged = bytes.fromhex(opg.forge())
@@ -134,6 +166,14 @@ def eval_group(case):
         out.append(_res(O_UNSIGNED, True))
     except Exception as e:  # noqa
         out.append(_res(O_UNSIGNED, False, f'binary_payload() of the unsigned group raised {CC.exc_text(e)}', tag))
+    # ... also when the unsigned group remembers the hash of an earlier injection (there is no signature to hash)
+    try:
+        h0 = opg._spawn(opg_hash=STALE_HASH, opg_result={'hash': STALE_HASH}).hash()
+        out.append(_res(O_UNSIGNED, False, f'hash() of the unsigned group {shape} carrying a remembered opg_hash returned {h0}', tag + ' remembered hash'))
+    except ValueError:
+        out.append(_res(O_UNSIGNED, True))
+    except Exception as e:  # noqa
+        out.append(_res(O_UNSIGNED, False, f'hash() of the unsigned group carrying a remembered opg_hash raised {CC.exc_text(e)}', tag + ' remembered hash'))
     before = json.dumps(opg.json_payload(), sort_keys=True)
     try:
         signed = opg.sign()
@@ -152,16 +192,7 @@ def eval_group(case):
         return out + [_res(O_SIG, False, f'signature {sig!r} is not a Tezos signature encoding ({e})', tag + ' undecodable')]
     wm = watermark(kinds, chain_id)
     msg = wm + forged
-    good_kind = kind in ('sig', curve + 'sig') and len(raw) == B58.SIG_LEN[curve]
-    ind = SIG.verify(curve, pk, msg, raw) if good_kind else False
-    if ind is None:   # BLS: deterministic reference + the real verify
-        from pytezos.crypto.key import Key
-        ref = SIG.bls_aug_sign_reference(secret, msg)
-        try:
-            v = Key.from_encoded_key(B58.encode('BLpk', pk)).verify(sig, msg)
-        except Exception as e:  # noqa
-            v = CC.exc_text(e)
-        ind = (ref == raw) and v is True
+    ind, kind, raw = verifies(curve, secret, pk, msg, sig)
     out.append(_res(O_SIG, ind is True,
                     f'{shape}: signature {sig[:14]}.. (kind {kind}, {len(raw)} bytes) does not verify under the source key over '
                     f'watermark 0x{wm.hex()} || forged bytes ({len(forged)} bytes)', f'{tag} watermark=0x{wm[:1].hex()}'))
@@ -179,10 +210,40 @@ def eval_group(case):
     except Exception as e:  # noqa
         okp, infop = False, 'binary_payload() raised ' + CC.exc_text(e)
     out.append(_res(O_PAYLOAD, okp, f'{shape}: {infop}', tag))
+    # the same signature in the curve-specific notation (edsig / spsig1 / p2sig: what older nodes and remote signers return;
+    # sign() itself always emits the generic `sig` for tz1-tz3): same raw bytes, hence same payload and hash
+    if curve != 'BL':
+        try:
+            alt = signed._spawn(signature=B58.encode(curve + 'sig', raw))
+            h_alt, bp_alt = alt.hash(), bytes(alt.binary_payload())
+            out.append(_res(O_SIGKIND, h_alt == want_h and bp_alt == forged + raw,
+                            f'{shape}: with the signature written as {alt.signature[:8]}.. hash() = {h_alt} (expected {want_h}), payload {len(bp_alt)} bytes '
+                            f'(expected {len(forged) + len(raw)})', tag + f' {curve}sig notation'))
+        except Exception as e:  # noqa
+            out.append(_res(O_SIGKIND, False, f'{shape}: hash()/binary_payload() with the signature written as {curve}sig raised {CC.exc_text(e)}',
+                            tag + f' {curve}sig notation'))
+    # re-signing: a group that already carries a signature whose bytes changed afterwards (another branch: fill() after a
+    # refused injection; _spawn copies the old signature) must be signed AGAIN over its current bytes
+    try:
+        branch2 = next(b for b in BRANCHES if b != branch)
+        moved = signed._spawn(branch=branch2, opg_hash=STALE_HASH)
+        resigned = moved.sign()
+        forged2 = bytes.fromhex(resigned.forge())
+        ok2, kind2, raw2 = verifies(curve, secret, pk, wm + forged2, resigned.signature, full=False)
+        out.append(_res(O_RESIGN, ok2 and forged2 != forged and resigned.chain_id == chain_id,
+                        f'{shape}: the signed group moved to branch {branch2[:10]}.. and signed again carries signature {str(resigned.signature)[:14]}.. which '
+                        f'does not verify over watermark 0x{wm.hex()} || its forged bytes' + (' (it is the old signature)' if resigned.signature == sig else ''),
+                        tag + ' re-signed'))
+    except Exception as e:  # noqa
+        out.append(_res(O_RESIGN, False, f'{shape}: signing an already signed group again raised {CC.exc_text(e)}', tag + ' re-signed'))
+    # ONE group object re-used across in-place edits (contents are plain lists / dicts, branch a plain attribute): forge() and sign()
+    # it, edit it, sign() again - signature and hash must follow the CURRENT fields (forged independently of the object by the
+    # module function forge_operation_group on the current branch / contents)
+    out += reuse_clauses(case, curve, secret, pk, kinds, variant, chain_id, branch, pin, wm, shape, tag)
     # history: a group DERIVED from an already injected one (send() returns a group carrying the node's hash; _spawn copies every
     # field) and signed again must be hashed from its own bytes, not from what was remembered
     try:
-        sent = signed._spawn(opg_hash='oo6JPEAy8VuMRGaFuMmLNFFGdJgiaKfnmT1CpHJfKP3Ye5ZahiP', opg_result={'hash': 'stale'})
+        sent = signed._spawn(opg_hash=STALE_HASH, opg_result={'hash': 'stale'})
         again = sent._spawn(branch=branch).sign()
         _, raw2 = B58.decode(again.signature)
         h2 = again.hash()
@@ -191,6 +252,52 @@ def eval_group(case):
                         tag + ' derived-from-injected'))
     except Exception as e:  # noqa
         out.append(_res(O_HASH, False, f'{shape}: re-signing a group derived from an injected one raised {CC.exc_text(e)}', tag + ' derived-from-injected'))
+    return out
+
+
+EDIT_FIELD = {'failing_noop': ('arbitrary', 'edited in place'), 'activate_account': ('secret', 'ab' * 20), 'endorsement': ('level', 424242),
+              'endorsement_with_slot': ('slot', 99)}
+
+
+def reuse_clauses(case, curve, secret, pk, kinds, variant, chain_id, branch, pin, wm, shape, tag):
+    from pytezos.operation.forge import forge_operation_group
+    out = []
+    src = B58.pkh(curve, pk)
+    edits = ['field', 'append', 'branch']
+    if curve == 'BL':       # py_ecc budget: one edit per tz4 group (rotating), all three for the other curves
+        edits = [edits[(variant + len(kinds) + len(chain_id)) % 3]]
+    try:
+        opg, _ = build_group(curve, secret, kinds, variant, chain_id, branch, pin)
+        opg.forge()
+        if curve != 'BL':
+            opg.sign()
+        for ed in edits:
+            if ed == 'field':
+                name, val = EDIT_FIELD.get(kinds[0], ('fee', '31337'))
+                opg.contents[0][name] = val
+            elif ed == 'append':
+                opg.contents.append(content(kinds[-1], variant + 7, src, B58.encode(curve + 'pk', pk)))
+            else:
+                opg.branch = next(b for b in BRANCHES if b != opg.branch)
+            signed = opg.sign()
+            cur = bytes(forge_operation_group({'branch': opg.branch, 'contents': opg.contents}))
+            okv, kind, raw = verifies(curve, secret, pk, wm + cur, signed.signature, full=False)
+            same = signed.branch == opg.branch and signed.contents == opg.contents
+            h, want_h = signed.hash(), B58.operation_hash(cur, raw)
+            out.append(_res(O_REUSE, okv and same and h == want_h and bytes(signed.binary_payload()) == cur + raw,
+                            f'{shape}: the same group object after forge()/sign() and an in-place edit ({ed}): '
+                            + ('the new signature does not verify over watermark || forged bytes of the current fields' if not okv else
+                               f'hash() = {h}, expected {want_h} over the current bytes' if same else 'the signed copy does not carry the current fields'),
+                            tag + f' same object, edit {ed}'))
+            # the signed copy itself: hashed, then its signature replaced in place, hashed again
+            other_sig = B58.encode('BLsig' if curve == 'BL' else 'sig', bytes(reversed(raw)))
+            signed.signature = other_sig
+            h2, want2 = signed.hash(), B58.operation_hash(cur, bytes(reversed(raw)))
+            out.append(_res(O_REUSE, h2 == want2 and bytes(signed.binary_payload()) == cur + bytes(reversed(raw)),
+                            f'{shape}: signed copy hashed, signature replaced in place, hashed again: hash() = {h2}, expected {want2}',
+                            tag + ' same object, signature replaced'))
+    except Exception as e:  # noqa
+        out.append(_res(O_REUSE, False, f'{shape}: re-using one group object across in-place edits raised {CC.exc_text(e)}', tag + ' same object raises'))
     return out
 
 
@@ -260,8 +367,10 @@ def enumerate_cases(tier, seed=0):
                     else:
                         chains = CHAIN_IDS[:2] if (thorough and not bl) else [CHAIN_IDS[(gi + variant) % 2]]
                     for chain_id in chains:
+                        # chain id pinned on the client context: None / another chain / the group's (rotating; 'other' first for consensus kinds)
+                        pin = PINS[(gi + variant + ki + CHAIN_IDS.index(chain_id) + (1 if consensus else 0)) % 3]
                         c = dict(k='group', curve=curve, secret=secret.hex(), kinds=kinds, variant=variant, chain_id=chain_id,
-                                 branch=BRANCHES[(gi + variant + ki) % 3])
+                                 branch=BRANCHES[(gi + variant + ki) % 3], pin=pin)
                         (bl_cases if bl else cases).append(c)
     chunks = [[c] for c in bl_cases] + [cases[i:i + 40] for i in range(0, len(cases), 40)]
     return chunks
